@@ -31,7 +31,17 @@ def to_real_(v):
 
 
 def _arith(op, x, y):
+    x, y = lift(x), lift(y)
+    if op == "Div" or z3.is_real(x) != z3.is_real(y):
+        x, y = to_real_(x), to_real_(y)
     return {"Add": lambda: x + y, "Sub": lambda: x - y, "Mult": lambda: x * y, "Div": lambda: x / y}[op]()
+
+
+GI, GJ = Int("gi"), Int("gj")          # generic indices of point-wise obligations
+
+
+def in_range(shape, ix):
+    return And(*[And(0 <= i, i < lift(d)) for i, d in zip(ix, shape)]) if shape else BoolVal(True)
 
 
 def _cell_binop(op, a, b, shape):
@@ -118,6 +128,9 @@ class NdContract(Contract):
                 f2 = z3.Function(f"dot<{a.name}|{b.name}>", z3.IntSort(), z3.IntSort(), z3.RealSort())
                 return Nd(f"dot({a.name},{b.name})", (a.shape[0], b.shape[1]), "ndarray", "ERASED", dot=(a, b), cell=lambda i, j: f2(i, j))
             raise Unsupported("dot of higher-rank operands")
+        if name == "numpy.where" and len(args) == 3 and all(is_nd(x) and getattr(x, "cell", None) is not None for x in args):
+            c, x, y = args
+            return Nd("where", c.shape, "ndarray", "ERASED", cell=lambda i: z3.If(c.cell(i), x.cell(i), y.cell(i)))
         if name == "dot" and is_nd(recv) and args and is_nd(args[0]):
             return self.on_call(eng, st, node, "numpy.dot", None, [recv, args[0]], {})
         if name == "numpy.atleast_2d" and is_nd(a0) and len(a0.shape) == 2:
@@ -197,7 +210,32 @@ class NdContract(Contract):
                 return self._derive(base, shape=(base.shape[1], base.shape[0]))
         return NotImplemented
 
+    def on_subscript(self, eng, st, node, base, index):
+        if is_nd(base) and len(base.shape) == 1 and getattr(base, "cell", None) is not None:
+            if isinstance(index, Abstract) and index.tag == "slice" and index.hi is None and index.step is None and isinstance(index.lo, int) and index.lo >= 0:
+                k0 = index.lo
+                return Nd(f"{base.name}[{k0}:]", (z3.If(lift(base.shape[0]) >= k0, lift(base.shape[0]) - k0, 0),), "ndarray", "ERASED",
+                          cell=lambda i, c=base.cell: c(i + k0), view_of=(base, k0))
+            if is_nd(index) and len(index.shape) == 1 and getattr(index, "cell", None) is not None:
+                eng.oblige(st, "index_array_in_bounds_pointwise",
+                           z3.Implies(in_range(index.shape, (GI,)), And(0 <= index.cell(GI), index.cell(GI) < lift(base.shape[0]))), "bounds", node)
+                return Nd(f"{base.name}[{index.name}]", index.shape, "ndarray", "ERASED", cell=lambda i, c=base.cell, d=index.cell: c(d(i)), take=(base, index))
+        return NotImplemented
+
+    def on_store_subscript(self, eng, st, node, base, index, value):
+        if is_nd(base) and len(base.shape) == 1 and getattr(base, "cell", None) is not None and isinstance(index, Abstract) and index.tag == "slice" \
+                and index.hi is None and index.step is None and isinstance(index.lo, int) and is_nd(value) and getattr(value, "cell", None) is not None:
+            k0, old, new = index.lo, base.cell, value.cell
+            base.cell = lambda i: z3.If(i >= k0, new(i - k0), old(i))        # in-place slice assignment
+            return True
+        return NotImplemented
+
     def on_compare(self, eng, st, node, op, a, b):
+        if is_nd(a) and is_nd(b) and op in ("Eq", "NotEq", "Lt", "LtE", "Gt", "GtE") and getattr(a, "cell", None) and getattr(b, "cell", None) \
+                and len(a.shape) == len(b.shape) == 1:
+            f = {"Eq": lambda x, y: x == y, "NotEq": lambda x, y: x != y, "Lt": lambda x, y: x < y, "LtE": lambda x, y: x <= y,
+                 "Gt": lambda x, y: x > y, "GtE": lambda x, y: x >= y}[op]
+            return Nd(f"({a.name}{op}{b.name})", a.shape, "ndarray", "ERASED", cell=lambda i: f(a.cell(i), b.cell(i)))
         if is_nd(a) and not is_nd(b) and op in ("Eq", "NotEq", "Gt", "Lt", "GtE", "LtE") and not (b is None):
             return self._derive(a, name=f"({a.name}{op}scalar)", kind="ndarray", prov="ERASED")
         return NotImplemented
@@ -221,13 +259,17 @@ class NdContract(Contract):
                     shape = a.shape
                 else:
                     raise Unsupported("broadcast of these ranks")
-                return Nd(f"({a.name}{op}{b.name})", shape, "ndarray", "ERASED", binop=(op, a, b), cell=_cell_binop(op, a, b, shape))
+                cell = _cell_binop(op, a, b, shape)
+                if op == "Div" and getattr(b, "cell", None) is not None:
+                    ix = (GI, GJ)[:len(b.shape)]
+                    eng.oblige(st, "no_division_by_zero_pointwise", z3.Implies(in_range(b.shape, ix), to_real_(b.cell(*ix)) != 0), "arith", node)
+                return Nd(f"({a.name}{op}{b.name})", shape, "ndarray", "ERASED", binop=(op, a, b), cell=cell)
             v = a if is_nd(a) else b
             other = b if is_nd(a) else a
             vc = getattr(v, "cell", None)
             cell = None
             if vc is not None and not isinstance(other, Abstract):
-                o = to_real_(other)
+                o = other
                 cell = (lambda *ix: _arith(op, vc(*ix), o)) if is_nd(a) else (lambda *ix: _arith(op, o, vc(*ix)))
             return self._derive(v, name=f"({v.name}{op}scalar)", kind="ndarray", prov="ERASED", cell=cell)
         return NotImplemented
